@@ -140,11 +140,23 @@ pub async fn update_account_key(
 			n,
 		)
 	};
-	create_account_if_does_not_exist!(
-		http::post_jose_no_response(endpoint, &data_builder, &url).await,
-		endpoint,
-		account
-	)?;
+	let mut res = http::post_jose_no_response(endpoint, &data_builder, &url).await;
+	if let Err(HttpError::ApiError(ref e)) = res {
+		if !matches!(e.get_acme_type(), AcmeError::AccountDoesNotExist) {
+			// The CA may already hold the new key: when the answer to an earlier roll-over request
+			// was lost, the request signed with the superseded key is refused for ever.
+			let account_owned = account.clone();
+			let probe = set_data_builder_sync!(account_owned, endpoint_name, b"");
+			if http::post_jose_no_response(endpoint, &probe, &account_url)
+				.await
+				.is_ok()
+			{
+				account.debug("the CA already holds the current key");
+				res = Ok(());
+			}
+		}
+	}
+	create_account_if_does_not_exist!(res, endpoint, account)?;
 	account.update_key_hash(&endpoint_name)?;
 	account.save().await?;
 	account.info(&format!(
